@@ -63,7 +63,28 @@ def canon(result, members):
     return out
 
 
-def run_assignor(A, kind, parts, members, user_data=None):
+class AssignorHang(Exception):
+    pass
+
+
+def _alarm(signum, frame):
+    raise AssignorHang()
+
+
+def run_assignor(A, kind, parts, members, user_data=None, limit_s=5.0):
+    """runs assign() under a wall-clock limit (pure Python, so SIGALRM interrupts it);
+    AssignorHang = the loop did not finish: non-termination is itself a finding"""
+    import signal
+    old = signal.signal(signal.SIGALRM, _alarm)
+    signal.setitimer(signal.ITIMER_REAL, limit_s)
+    try:
+        return _run_assignor(A, kind, parts, members, user_data)
+    finally:
+        signal.setitimer(signal.ITIMER_REAL, 0)
+        signal.signal(signal.SIGALRM, old)
+
+
+def _run_assignor(A, kind, parts, members, user_data=None):
     proto = A["proto"]
     mm = {}
     for m, subs in members:
